@@ -250,6 +250,20 @@ pub fn run(ctx: &Ctx) -> Value {
             add("dur", serde_events(&mut tw, "dur", json!({"d": big(x)}), &d, &proj, &nodev));
         }
     }
+    // hand-made payloads for TimeDelta (a pair of whole seconds and nanoseconds) in both formats: a pair that is no duration - nanoseconds
+    // outside 0..10^9, or a value beyond the range - must be refused by the reader of either format
+    {
+        let lim_s = i64::MAX / 1000;
+        let mut n_de = 0usize;
+        for s in [0i64, 1, -1, lim_s, lim_s + 1, -lim_s, -lim_s - 1, -lim_s - 2, i64::MAX, i64::MIN, 1 << 53] { for n in [0i64, 1, 806_999_999, 807_000_000, 807_000_001, 192_999_999, 193_000_000, 999_999_999, 1_000_000_000, -1, i32::MAX as i64] {
+            let mut bytes = s.to_le_bytes().to_vec(); bytes.extend((n as i32).to_le_bytes());
+            let js = format!("[{},{}]", s, n);
+            let proj = |r: Option<TimeDelta>| match r { Some(b) => json!({"ok": {"d": big(b.num_seconds() as i128 * 1_000_000_000 + b.subsec_nanos() as i128)}}), None => json!({"err": 1}) };
+            tw.emit(ev("dur_de", json!({"secs": big(s as i128), "nanos": big(n as i128)}), || json!({"bin": proj(bincode::deserialize::<TimeDelta>(&bytes).ok()), "json": proj(serde_json::from_str::<TimeDelta>(&js).ok())})));
+            n_de += 1;
+        } }
+        add("dur_payloads", n_de);
+    }
     for i in 0..7 { let w = wd_of(i); add("weekday", serde_events(&mut tw, "weekday", json!({"w": i}), &w, &|b: &Weekday| json!({"w": wd(*b)}), &nodev)); }
     for m in [Month::January, Month::February, Month::March, Month::April, Month::May, Month::June, Month::July, Month::August, Month::September, Month::October,
               Month::November, Month::December] {
